@@ -5,5 +5,5 @@ demo=$(readlink -f $1); repo=${2:-/repo}
 T=$(mktemp -d /tmp/pkdemo-XXXX); cp -r $repo $T/repo; rm -rf $T/repo/target $T/repo/.git
 cp $demo $T/repo/tests/
 name=$(basename $demo .rs)
-(cd $T/repo && CARGO_NET_OFFLINE=true CARGO_TARGET_DIR=/verif/.cache/target-stabletest timeout 600 cargo test --offline --test $name -- --nocapture --test-threads 1 2>&1 | grep -E "^F[0-9]|^test |panicked|attempt|^error|test result" | head -30) || true
+(cd $T/repo && CARGO_NET_OFFLINE=true CARGO_TARGET_DIR=/verif/.cache/target-stabletest timeout 600 cargo test --offline --test $name -- --nocapture --test-threads 1 2>&1 | grep -E "^F[0-9]|^WITNESS|^found|^test |panicked|attempt|^error|test result" | head -150) || true
 rm -rf $T
